@@ -720,6 +720,60 @@ def run(prog, rep, tier):
     if len(kinds58) < 3:
         raise CheckerError("R5.8: blocksz_at_blockoffset call found in only %d decoders" % len(kinds58))
 
+    # ------------------------------------------------------------ R5.13 the tar member index means the same thing where it is stored and where it is used
+    # BlockReader::new finds the member by enumerating the archive and stores its position;
+    # read_block_FileTar fetches the member with `nth(position)`.  Both have to count over the same
+    # sequence: the iterator handed to `enumerate` and the one handed to `nth` must be the same type
+    # (tar::Entries itself, or the same adapter stack).  A filter on one side only (skip link entries,
+    # skip directories) shifts the position and another member's bytes are read.
+    R513 = rep.rule("R5.13", "the stored tar member position and the position used for reading count over the same iterator")
+    nb13 = prog.body(BR + "::new")
+    rb13 = prog.body(BR + "::read_block_FileTar")
+
+    def _tar_iter_types(b_, names):
+        res = []
+        for c in b_.live_calls():
+            nm_ = (c.o or c.d).split("::")[-1]
+            st_ = (c.callee.get("self") or "")
+            if nm_ in names and "tar::Entries" in st_:
+                import re as _re513
+                res.append((nm_, c.line, _re513.sub(r"'[_a-z0-9]+", "'_", st_)))
+        return res
+    en13 = _tar_iter_types(nb13, ("enumerate",))
+    nt13 = _tar_iter_types(rb13, ("nth", "skip", "enumerate"))
+    rep.examined(R513, BR + "|tar-member-position", sample={"stored_by": en13, "used_by": nt13})
+    if not en13 or not nt13:
+        raise CheckerError("R5.13: enumerate/nth over tar entries not found (%s / %s)" % (en13, nt13))
+    t_store = {t_ for _n, _l, t_ in en13}
+    t_use = {t_ for _n, _l, t_ in nt13}
+    if t_store != t_use:
+        rep.violation(R513, BR + "|tar-member-position|different-sequences", "BlockReader::new stores the member's position counted over %s (line %d) but read_block_FileTar takes the nth element of %s (line %d); "
+                      "when the archive holds entries that only one side counts (link entries, directories) the bytes of another member are read" % (
+                          sorted(t_store)[0][:90], en13[0][1], sorted(t_use)[0][:90], nt13[0][1]))
+
+    # ------------------------------------------------------------ R5.14 the gzip size limit is a limit on the file on disk
+    # BlockReader refuses .gz files above GZ_MAX_SZ; that (documented, arbitrary) limit is applied to the
+    # on-disk length.  Applied to the length the trailer declares it refuses every log whose *content*
+    # exceeds the limit, although the same bytes in a plain file are printed.
+    R514 = rep.rule("R5.14", "GZ_MAX_SZ is compared with the on-disk length (metadata), not with the uncompressed length")
+    gzmax = prog.facts.const(BR + "::GZ_MAX_SZ")
+    if not isinstance(gzmax, int):
+        raise CheckerError("R5.14: GZ_MAX_SZ not found")
+    n514 = 0
+    for bb in sorted(nb13.live):
+        for st in nb13.stmts(bb):
+            if st[0] == "=" and st[2][0] == "bin" and st[2][1] in ("Gt", "Lt", "Ge", "Le") and any(o[0] == "k" and o[2] == gzmax for o in (st[2][2], st[2][3])):
+                other = [o for o in (st[2][2], st[2][3]) if o[0] != "k"]
+                srcs = sorted({(x[2].split("::")[-2] + "::" + x[2].split("::")[-1]) if x[0] == "call" else x[0] for o in other for x in nb13.origins(o, through_calls=("::into", "::try_into", "::unwrap", "::from"))})
+                n514 += 1
+                ondisk = bool(srcs) and all(s_ == "Metadata::len" for s_ in srcs)
+                rep.examined(R514, BR + "::new|gz-limit", sample={"line": st[3], "compared_value_from": srcs, "on_disk_length": ondisk})
+                if not ondisk:
+                    rep.violation(R514, BR + "::new|gz-limit|not-on-disk-length", "BlockReader::new (line %d) compares GZ_MAX_SZ with a value from %s instead of the file's on-disk length; every .gz whose content exceeds %d bytes is refused "
+                                  "while the same content in a plain file is printed" % (st[3], srcs, gzmax))
+    if n514 == 0:
+        raise CheckerError("R5.14: no comparison with GZ_MAX_SZ found in BlockReader::new")
+
     return rep.finish(
         "Static necessary-condition check: every decoder read() call site of the library honours short reads (count bounds the consumed slice, "
         "or a fill loop, or the buffer is not consumed); BlockReader::read_block dispatches Text and FixedStruct to the same, distinct reader per "
